@@ -857,3 +857,56 @@ Qed.
 End Branches.
 Check write_step_ok.
 Print Assumptions write_step_ok.
+
+(* ---------- the whole Write loop ---------- *)
+Lemma overwrite_compose (c : list byte) o d1 d2 :
+  o <= length c ->
+  overwrite (overwrite c o d1) (o + length d1) d2 = overwrite c o (d1 ++ d2).
+Proof.
+  intros Ho. unfold overwrite.
+  assert (H1 : length (firstn o c) = o) by (rewrite firstn_length; lia).
+  rewrite firstn_app. rewrite H1.
+  rewrite firstn_all2 with (n := o + length d1) (l := firstn o c) by lia.
+  replace (o + length d1 - o) with (length d1) by lia.
+  rewrite firstn_app. rewrite firstn_all. replace (length d1 - length d1) with 0 by lia.
+  cbn [firstn]. rewrite app_nil_r.
+  rewrite <- !app_assoc. f_equal. f_equal. f_equal.
+  rewrite app_length.
+  (* skipn (o + |d1| + |d2|) (firstn o c ++ d1 ++ skipn (o+|d1|) c) = skipn (o + (|d1|+|d2|)) c *)
+  rewrite skipn_app. rewrite skipn_all2 with (l := firstn o c) by lia. cbn [app].
+  rewrite H1. replace (o + length d1 + length d2 - o) with (length d1 + length d2) by lia.
+  rewrite skipn_app. rewrite skipn_all2 with (l := d1) by lia. cbn [app].
+  replace (length d1 + length d2 - length d1) with (length d2) by lia.
+  rewrite my_skipn_skipn. f_equal. lia.
+Qed.
+
+Theorem write_loop_ok mb (Hmb : 1 <= mb) fuel : forall fn p data,
+  WF fn -> valid fn p -> off p <= length (content fn) -> length data <= fuel ->
+  let '(fn', p') := write_loop mb fuel fn p data in
+  content fn' = overwrite (content fn) (off p) data /\ WF fn' /\ valid fn' p' /\ off p' = off p + length data.
+Proof.
+  induction fuel as [|fuel IH]; intros fn p data Hwf Hv Ho Hlen.
+  - destruct data; [|cbn [length] in Hlen; lia]. cbn [write_loop].
+    unfold overwrite. cbn [app length]. rewrite Nat.add_0_r, firstn_skipn. auto.
+  - destruct data as [|b data'] eqn:Ed.
+    + cbn [write_loop]. unfold overwrite. cbn [app length]. rewrite Nat.add_0_r, firstn_skipn. auto.
+    + rewrite <- Ed in *. assert (Hd : data <> []) by (rewrite Ed; discriminate).
+      replace (write_loop mb (S fuel) fn p data) with
+        (let '(fn', p', n) := write_step mb fn p data in write_loop mb fuel fn' p' (skipn n data))
+        by (rewrite Ed; reflexivity).
+      destruct (write_step_ok mb Hmb fn p data Hwf Hv Hd) as [Hok Hval].
+      destruct (write_step mb fn p data) as [[fn1 p1] n] eqn:Es.
+      unfold step_ok, step_valid in *.
+      destruct Hok as (Hn & Hc1 & Hwf1 & Hoff1).
+      assert (Hlen1 : length (content fn1) >= off p + n).
+      { rewrite Hc1. unfold overwrite. rewrite !app_length, !firstn_length. lia. }
+      specialize (IH fn1 p1 (skipn n data) Hwf1 Hval).
+      assert (Hsk : length (skipn n data) = length data - n) by apply skipn_length.
+      destruct (write_loop mb fuel fn1 p1 (skipn n data)) as [fn' p'] eqn:El.
+      destruct IH as (A & B & C & D); [lia|lia|].
+      split; [|split; [exact B|split; [exact C|lia]]].
+      rewrite A, Hc1, Hoff1.
+      replace n with (length (firstn n data)) at 2 by (rewrite firstn_length; lia).
+      rewrite overwrite_compose by exact Ho. rewrite firstn_skipn. reflexivity.
+Qed.
+Print Assumptions write_loop_ok.
